@@ -148,7 +148,7 @@ static int check_model(const rsig *s, const char *what) {
 }
 
 /* ------------------------------------------------------------------ mutation catalogue */
-#define NMUT 61
+#define NMUT 62
 static const char *MUTNAME[NMUT] = {
 	"chain1-input", "chainlast-input", "rfc-suffix", "chain1-time", "chainlast-time", "rfc-time", "cal-input", "cal-aggrtime-consistent",
 	"cal-flip-link", "cal-drop-link", "cal-add-link", "auth-time", "auth-hash", "pub-time", "pub-hash", "index-last-top", "index-last-bottom",
@@ -157,7 +157,7 @@ static const char *MUTNAME[NMUT] = {
 	"meta-padv-00", "meta-padv-ff", "meta-padv-0201", "meta-padv-0001", "meta-padv-ff01", "meta-padv-0102", "meta-padv-0100", "meta-padv-0202", "meta-padv-empty", "meta-padv-010101", "meta-padv-0101-ok", "meta-padv-01-ok",
 	"cal-add-right-lowest", "cal-add-left-lowest", "cal-add-right-second", "cal-dup-first",
 	"corr-2^64-1", "corr-2^64-2-last-chain", "corr-2^32", "cal-no-aggrtime-consistent",
-	"rfc-tst-alg+2^32", "rfc-sig-alg+2^32", "rfc-both-alg+2^63", "rfc-tst-alg-257", "rfc-index-one-more", "rfc-index-one-less", "cal-no-aggrtime-shape-of-previous-second"
+	"rfc-tst-alg+2^32", "rfc-sig-alg+2^32", "rfc-both-alg+2^63", "rfc-tst-alg-257", "rfc-index-one-more", "rfc-index-one-less", "cal-no-aggrtime-shape-of-previous-second", "meta-pad-tlv16-hashed-as-tlv8"
 };
 
 static rlink *find_meta(rsig *s, int *chain) {
@@ -280,6 +280,19 @@ static int mutate(rsig *s, int m) {
 		case 55: if (!s->has_rfc || s->rfc.sig_alg != RH_SHA256) return -1; s->rfc.sig_alg += 0x100000000ULL; return 0;
 		case 56: if (!s->has_rfc || s->rfc.tst_alg != RH_SHA256 || s->rfc.sig_alg != RH_SHA256) return -1; s->rfc.tst_alg += 0x8000000000000000ULL; s->rfc.sig_alg += 0x8000000000000000ULL; return 0;
 		case 57: if (!s->has_rfc || s->rfc.tst_alg != RH_SHA256) return -1; s->rfc.tst_alg += 256; return 0;
+		case 61: { /* the padding element is coded with the long (TLV16) header, while every hash of the signature was computed over the record
+		            * with the padding in its short form: what is hashed is not what the signature carries, and the padding is not a TLV8 */
+			static const unsigned char one[2] = {1, 1};
+			if (!(ml = find_meta(s, &ci))) return -1;
+			vb_init(&b);
+			rtlv_put(&b, 0x1e, 1, 1, one, 2, 0); rtlv_put_str(&b, 0x01, "cli");
+			set_meta(ml, b.p, b.n); vb_free(&b);
+			if (rs_fix(s, RS_FIX_INPUTS | RS_FIX_CAL_IN | RS_FIX_TAIL) != 0) return -1;
+			vb_init(&b);
+			rtlv_put(&b, 0x1e, 1, 1, one, 2, 1); rtlv_put_str(&b, 0x01, "cli");
+			set_meta(ml, b.p, b.n); vb_free(&b);
+			return 0;
+		}
 		case 60: { /* no aggregation-time field, publication time = the signature's aggregation time (so the times agree), but the links have the
 		            * shape of the second before: the time derived from the shape is not the chain's time */
 			uint64_t t;
